@@ -67,9 +67,6 @@ impl Ty {
     pub fn label(&self) -> String {
         format!("{}^{}", self.field.name(), self.ext)
     }
-    pub fn ref_field(&self) -> vf_ref::Field {
-        vf_ref::Field::ext(self.field.fp(), self.ext as usize)
-    }
 }
 
 /// all (field, extension, hasher) combinations that exist in /repo
@@ -153,9 +150,6 @@ impl Sched {
     pub fn rem_size(&self) -> usize {
         1 << self.log_rem
     }
-    pub fn rem_domain(&self) -> usize {
-        self.rem_size() * self.blowup()
-    }
     /// domain size of layer l (l = layers is the remainder layer)
     pub fn layer_domain(&self, l: usize) -> usize {
         self.domain() >> (l * self.log_n as usize)
@@ -163,12 +157,18 @@ impl Sched {
 
     /// the harness' own statement of well-formedness (independent of how the value was generated)
     pub fn well_formed(&self) -> Result<(), String> {
+        self.well_formed_with(false)
+    }
+
+    /// `allow_t2`: admit T = 2 (degree bound 1), which the FriOptions documentation covers ("d one less
+    /// than a power of two => domain (d + 1) * blowup") but FriVerifier::new's domain formula does not
+    pub fn well_formed_with(&self, allow_t2: bool) -> Result<(), String> {
         if !(1..=4).contains(&self.log_n) || !(1..=7).contains(&self.log_blowup) || self.log_rmd1 > 8 {
             return Err("parameter outside the documented ranges".into());
         }
         let (t, n, r1, b) = (self.t(), self.folding(), self.rmd() + 1, self.blowup());
         let d = t * b;
-        if t == 2 {
+        if t == 2 && !allow_t2 {
             return Err("T = 2: next_power_of_two(bound) != T".into());
         }
         if d < 8 {
@@ -251,6 +251,20 @@ pub fn sched_strategy_layers(min_layers: u8, min_log_d: u32, max_log_d: u32) -> 
                 s.log_rmd1 = 8;
             }
             s
+        })
+        .boxed()
+}
+
+/// the schedules with T = 2 (degree bound 1): no layer and a 2-coefficient remainder, or one
+/// layer folding by 2 into a constant; D = 2 * blowup >= 8
+pub fn sched_bound1_strategy() -> BoxedStrategy<Sched> {
+    (any::<bool>(), 2u8..=7, 1u8..=8)
+        .prop_map(|(one_layer, log_blowup, r)| {
+            if one_layer {
+                Sched { log_n: 1, layers: 1, log_rem: 0, log_blowup, log_rmd1: 0 }
+            } else {
+                Sched { log_n: 1, layers: 0, log_rem: 1, log_blowup, log_rmd1: r }
+            }
         })
         .boxed()
 }
